@@ -200,6 +200,9 @@ def directed_cases(seed, tier):
 
 
 def replay_case(case):
+    if case.get("inproc"):
+        from props import _inproc
+        return _inproc.replay(case)
     exe = core.build("rel")
     st_ = core.Stats()
     if case.get("tape_hex") is not None:
@@ -237,6 +240,9 @@ def run(tier, seed):
     stats.merge(s1)
     stats.merge(s0)
     fails = f0 + fails
+    # in-process: the same generator feeding parse/retrieve/decode/emit directly (ASan/UBSan, asserts on)
+    from props import _inproc
+    _inproc.add(stats, fails, "decode_valid", seed + 2, 12000 if tier == "quick" else 1500000)
     oc = core.conclude(PID, f1 + fails, replay_case)
     core.write_evidence(PID, tier, seed, "exploration", stats, RULE, time.time() - t0, violations=len(oc.violations),
                         assumptions=["bzgen, bzkit and libbz2 must agree that a generated file is valid and on its plaintext "
